@@ -35,6 +35,7 @@ type C17Case struct {
 	Partial   int    `json:"partial"`   // bytes of the frame delivered before the trigger (instant partial)
 	Follow    int    `json:"follow"`    // number of follow-up frames sent after the operation returned (1-3)
 	FollowCut int    `json:"follow_cut"` // segment size for the follow-up bytes (0 = one write)
+	Coalesced bool   `json:"coalesced,omitempty"` // instant partial: the prefix arrives in the same segment as the preceding complete frame
 }
 
 const c17Bound = 5 * time.Second
@@ -226,7 +227,13 @@ func execC17Client(c C17Case, bound time.Duration) (map[string]bool, error) {
 	if _, rerr := srvReadFrame(srv, bound); rerr != nil {
 		return facts, fmt.Errorf("the first, uncancelled request did not reach the peer: %v", rerr)
 	}
-	if werr := srvWrite(srv, []byte(`{"parameters":{"first":true},"continues":true}`+"\x00"), 0, bound); werr != nil {
+	frame1 := []byte(`{"parameters":{"n":1,"pad":"` + string(bytes.Repeat([]byte("p"), 40)) + `"},"continues":true}`)
+	firstReply := []byte(`{"parameters":{"first":true},"continues":true}` + "\x00")
+	coalesced := c.Coalesced && c.Instant == "partial" && c.Op != "send" && c.Op != "up-write"
+	if coalesced {
+		firstReply = append(firstReply, frame1[:1+c.Partial%(len(frame1)-1)]...)
+	}
+	if werr := srvWrite(srv, firstReply, 0, bound); werr != nil {
 		return facts, fmt.Errorf("HARNESS: peer write: %v", werr)
 	}
 	select {
@@ -238,7 +245,6 @@ func execC17Client(c C17Case, bound time.Duration) (map[string]bool, error) {
 		return facts, fmt.Errorf("the first, uncancelled exchange did not complete within %v", bound)
 	}
 
-	frame1 := []byte(`{"parameters":{"n":1,"pad":"` + string(bytes.Repeat([]byte("p"), 40)) + `"},"continues":true}`)
 	writeOp := c.Op == "send" || c.Op == "up-write"
 	ctx, fire, cancel, deadlineAt := makeCtx(c.Trigger, c.Instant, writeOp)
 	defer cancel()
@@ -250,7 +256,12 @@ func execC17Client(c C17Case, bound time.Duration) (map[string]bool, error) {
 	switch {
 	case c.Instant == "partial" && !writeOp:
 		partial = 1 + c.Partial%(len(frame1)-1)
-		go func() { preDone <- srvWrite(srv, frame1[:partial], 0, bound) }()
+		if coalesced {
+			facts["prefix-coalesced-with-previous-frame"] = true
+			preDone <- nil // already delivered together with the first reply
+		} else {
+			go func() { preDone <- srvWrite(srv, frame1[:partial], 0, bound) }()
+		}
 	case c.Instant == "after" && !writeOp:
 		go func() { preDone <- srvWrite(srv, append(append([]byte(nil), frame1...), 0), 0, bound) }()
 	default:
@@ -831,14 +842,28 @@ func execC17Service(c C17Case, bound time.Duration) (map[string]bool, error) {
 		}
 	}
 	defer conn.Close()
-	if perr := probeGetInfo(conn, env.cfg, bound); perr != nil {
-		env.svc.Shutdown()
-		env.cleanup()
-		return facts, perr
-	}
-	if c.Instant == "partial" {
-		conn.Write([]byte(`{"method":"org.varlink.serv`))
+	if c.Coalesced && c.Instant == "partial" {
+		// a complete call and the beginning of the next one in ONE segment
+		conn.SetWriteDeadline(time.Now().Add(bound))
+		conn.Write(append(append(append([]byte(nil), sentinelFrame...), 0), []byte(`{"method":"org.varlink.serv`)...))
+		got, _, _ := readFrames(conn, 1, bound)
+		if fr, _ := SplitFrames(got); len(fr) != 1 {
+			env.svc.Shutdown()
+			env.cleanup()
+			return facts, fmt.Errorf("service: the complete call was not answered")
+		}
 		facts["partial-frame"] = true
+		facts["prefix-coalesced-with-previous-frame"] = true
+	} else {
+		if perr := probeGetInfo(conn, env.cfg, bound); perr != nil {
+			env.svc.Shutdown()
+			env.cleanup()
+			return facts, perr
+		}
+		if c.Instant == "partial" {
+			conn.Write([]byte(`{"method":"org.varlink.serv`))
+			facts["partial-frame"] = true
+		}
 	}
 	time.Sleep(2 * time.Millisecond)
 	env.cancel() // the serving context
@@ -910,6 +935,9 @@ func c17Cells() []C17Case {
 						continue // Call's reply cannot arrive before its request was sent
 					}
 					cells = append(cells, C17Case{Side: "client", Op: op, Transport: tr, Trigger: trig, Instant: inst, Partial: 17, Follow: 2})
+					if inst == "partial" && op != "call" {
+						cells = append(cells, C17Case{Side: "client", Op: op, Transport: tr, Trigger: trig, Instant: inst, Partial: 17, Follow: 2, Coalesced: true})
+					}
 				}
 			}
 		}
@@ -930,6 +958,9 @@ func c17Cells() []C17Case {
 		}
 		for _, inst := range []string{"blocked", "partial"} {
 			cells = append(cells, C17Case{Side: "service", Op: "idle", Transport: tr, Trigger: "cancel", Instant: inst})
+			if inst == "partial" {
+				cells = append(cells, C17Case{Side: "service", Op: "idle", Transport: tr, Trigger: "cancel", Instant: inst, Coalesced: true})
+			}
 		}
 	}
 	return cells
